@@ -85,6 +85,12 @@ def make_inputs(r, tier):
     for s in valid:
         for m in mutants(r, s, 4 if tier == "quick" else 8):
             items.append(("mutant", m))
+    # truncations: every prefix and every suffix of some valid glycans, random cut points of the others
+    for i, s in enumerate(valid):
+        cuts = range(1, len(s)) if i < (6 if tier == "quick" else 60) else r.sample(range(1, max(2, len(s))), min(3, max(1, len(s) - 1)))
+        for c in cuts:
+            items.append(("truncation", s[:c]))
+            items.append(("truncation", s[c:]))
     # depth and length: nested brackets, long chains, large random trees, and mutants of them
     deep = []
     for k in ([5, 9, 14] if tier == "quick" else [5, 7, 9, 12, 16, 24, 40]):
@@ -157,7 +163,7 @@ def run(tier):
                     {"no_failing_input": True, "what_no_longer_checks": broken, "theorems": names_thm})
     report.assumptions = ["A-antlr: the ANTLR runtime and the generated tables (GlycanLexer.py / GlycanParser.py) are compared with the grammar file through the library's accept/reject answer only; the ALL(*) interpreter itself is foreign code",
                           "tokenisation by longest match with declaration-order priority is a definition (Spec/Ebnf.v lex), implicit literal tokens of parser rules first, as ANTLR numbers them"]
-    extra = {"rule": "all sequences of up to 2 (quick) / 3 (thorough) tokens over a reduced alphabet, random sequences of 3-9 tokens, random valid glycans in three notations and their single-edit mutants, nested brackets of depth 5-40, chains of up to 120 residues, trees of 15-40 residues and their mutants (verified recogniser with memo table), the reference corpora under tests/data (as inputs only); non-trivial = derivable from the grammar",
+    extra = {"rule": "all sequences of up to 2 (quick) / 3 (thorough) tokens over a reduced alphabet, random sequences of 3-9 tokens, random valid glycans in three notations and their single-edit mutants and truncations (prefixes / suffixes), nested brackets of depth 5-40, chains of up to 120 residues, trees of 15-40 residues and their mutants (verified recogniser with memo table), the reference corpora under tests/data (as inputs only); non-trivial = derivable from the grammar",
              "by_kind": kinds, "agree_accepted": agree_acc, "agree_rejected": agree_rej, "recogniser_out_of_fuel": fuel, "skipped_too_long_for_recogniser": skipped_long[0],
              "print_assumptions": res.assumptions.get(f"Props/{PROP}.v", "").strip().splitlines()[-3:]}
     return report.finish("proof", ob, dis, names_thm, trusted=C.TRUSTED, extra=extra)
